@@ -29,9 +29,11 @@ META = dict(
           "their last index are the time-independent ones, and they vanish at time zero (the antiderivative starts at "
           "zero). Through that lemma "
           "the operator-form propagation step inherits the trace/Hermiticity results of C02. Not decided here: equality "
-          "of whole propagated dynamics (same generator is shown, truncation not needed), the time-zero / last-index "
-          "limits of the time-dependent tensor, the analytic pure-dephasing limit."),
-    note="objects acted upon are stand-ins with a plain data array; basis contexts are the subject of C04.",
+          "of whole propagated dynamics (same generator is shown, truncation not needed), the four-index form of the "
+          "time-dependent limits, the analytic pure-dephasing limit."),
+    note="objects acted upon are stand-ins with a plain data array; basis contexts are the subject of C04; "
+         "UnivariateSpline(t, y, s=0).antiderivative()(t) is an uninterpreted deterministic function of (t, y) that is "
+         "zero at the first point (assumed contract of SciPy).",
     technique="VCs from the real AST (sidecar loop invariant, modular call rule) discharged by z3; operator-form = "
               "tensor-form lemma in Lean 4 with hypotheses printed from the contract clauses",
 )
